@@ -267,3 +267,65 @@ def run_merge_shard(args):
         elif not ans.get('wf'):
             bad.append({'desc': descs, 'what': 'the model container of a Merge is not well-formed (Bag.wfB)'})
     return stats, bad
+
+
+def run_checkids_shard(args):
+    """the container of `CheckIds()._connect(previous)` (layers/check_ids.py) against `CM.Model.CheckIds.checkIdsBag`: the previous
+    real container goes in (datasets, merged datasets, plain layers without `ids`, layers with two inputs), the guarded containers
+    are compared edge by edge up to node identities"""
+    seed, n = args
+    paths.use_repo()
+    from . import rel
+    recs, reqs = [], []
+    stats = {'checkids': 0, 'errors': {}, 'edges': 0}
+    for c in range(n):
+        rng = random.Random(seed * 70001 + c)
+        world = SymWorld()
+        b = Builder(world)
+        kind = rng.choice(['dataset', 'dataset', 'merge', 'layer', 'chain'])
+        try:
+            if kind == 'layer':
+                d = gen_layer(rng, c % 7)
+                layer = b.layer(d)
+            else:
+                counter = [0]
+                id_lists = rel.gen_ids(rng, 2 if kind == 'merge' else 1)
+                fields = rng.sample(['x', 'y', 'z'], rng.randint(1, 3))
+                ds = [rel.gen_dataset(rng, counter, ids, fields) for ids in id_lists]
+                d = ds
+                layers = [b.layer(x) for x in ds]
+                layer = b.c.Merge(*layers) if kind == 'merge' else layers[0]
+                if kind == 'chain':
+                    layer = layer >> b.c.CacheToRam(None)
+            prev = real_bag(world, layer)
+        except Exception:
+            continue
+        try:
+            real = {'ok': real_bag(world, None, b.c.CheckIds()._connect(layer._container))}
+        except (Unsupported, RecUnsupported):
+            continue
+        except Exception as e:
+            real = {'err': exc_name(e)}
+        recs.append((d, real))
+        reqs.append(prev)
+    answers = driver.run_lines([{'op': 'factory', 'checkids': reqs}])[0] if reqs else {'checkids': []}
+    bad = []
+    if 'error' in answers:
+        return stats, [{'desc': None, 'diff': answers['error']}]
+    for (d, real), ans in zip(recs, answers['checkids']):
+        stats['checkids'] += 1
+        if 'err' in real or 'err' in ans:
+            kk = real.get('err', 'ok')
+            stats['errors'][kk] = stats['errors'].get(kk, 0) + 1
+            # the real layer fails an assertion (not one input) or a lookup (no `ids`); the model rejects both
+            if ('err' in real) != ('err' in ans):
+                bad.append({'desc': d, 'what': 'CheckIds container', 'real': real.get('err', 'ok'), 'model': ans.get('err', 'ok')})
+            continue
+        stats['edges'] += len(real['ok']['edges'])
+        a, m = canon_sem(real['ok']), canon_sem(ans['ok'])
+        if a != m:
+            keys = [kk for kk in a if a[kk] != m[kk]]
+            bad.append({'desc': d, 'what': ['CheckIds container'] + keys, 'real': {kk: a[kk] for kk in keys[:2]}, 'model': {kk: m[kk] for kk in keys[:2]}})
+        elif not ans.get('wf'):
+            bad.append({'desc': d, 'what': 'the model container of CheckIds is not well-formed (Bag.wfB)'})
+    return stats, bad
